@@ -1,108 +1,9 @@
-// harness: runs the real fiano code on generated cases, asks the Lean model driver the same
-// questions, evaluates the property oracles, and writes a JSON statistics file.
-//
-//	harness run    -prop C13 -tier quick -seed 1 -driver PATH -corpus DIR -out stats.json
-//	harness replay -prop C13 -driver PATH -file replay.json
-//	harness list
+// harness with every property linked in (convenience; the checks use cmd/cxx, one property each).
 package main
 
 import (
-	"encoding/json"
-	"flag"
-	"fmt"
-	"os"
-
 	"verif/harness/core"
 	_ "verif/harness/props"
 )
 
-func main() {
-	if len(os.Args) < 2 {
-		fmt.Fprintln(os.Stderr, "usage: harness run|replay|list ...")
-		os.Exit(2)
-	}
-	fs := flag.NewFlagSet(os.Args[1], flag.ExitOnError)
-	prop := fs.String("prop", "", "property id")
-	tier := fs.String("tier", "quick", "quick|thorough")
-	seed := fs.Int64("seed", 1, "PRNG seed")
-	driver := fs.String("driver", "", "path of the Lean model driver executable")
-	corpus := fs.String("corpus", "", "corpus directory")
-	out := fs.String("out", "", "statistics output file")
-	file := fs.String("file", "", "replay file")
-	maxCases := fs.Int("max", 0, "limit the number of cases")
-	fs.Parse(os.Args[2:])
-
-	switch os.Args[1] {
-	case "list":
-		for _, id := range core.IDs() {
-			fmt.Println(id)
-		}
-	case "worker":
-		p := core.Lookup(*prop)
-		if p == nil {
-			os.Exit(2)
-		}
-		core.WorkerMain(p)
-	case "run":
-		p := core.Lookup(*prop)
-		if p == nil {
-			fmt.Fprintln(os.Stderr, "unknown property", *prop)
-			os.Exit(2)
-		}
-		st, err := core.Run(p, core.Options{Tier: *tier, Seed: *seed, DriverPath: *driver,
-			CorpusDir: *corpus, MaxCases: *maxCases})
-		if st != nil && *out != "" {
-			b, _ := json.MarshalIndent(st, "", " ")
-			os.WriteFile(*out, b, 0o644)
-		}
-		if err != nil {
-			fmt.Fprintln(os.Stderr, "harness error:", err)
-			os.Exit(3)
-		}
-		fmt.Printf("cases=%d checks=%d distinct=%d oracle_failures=%d model_failures=%d wall=%.1fs\n",
-			st.Evaluations, st.ChecksRun, st.DistinctNontrivial, st.OracleFailCount, st.ModelFailCount, st.WallS)
-	case "replay":
-		p := core.Lookup(*prop)
-		if p == nil {
-			fmt.Fprintln(os.Stderr, "unknown property", *prop)
-			os.Exit(2)
-		}
-		b, err := os.ReadFile(*file)
-		if err != nil {
-			fmt.Fprintln(os.Stderr, err)
-			os.Exit(2)
-		}
-		var rf struct {
-			Case *core.Case `json:"case"`
-		}
-		if err := json.Unmarshal(b, &rf); err != nil || rf.Case == nil {
-			fmt.Println("replay file holds no concrete case (no-failing-input-found); see its 'broken' field")
-			os.Exit(0)
-		}
-		ok, checks, err := core.Replay(p, *driver, *rf.Case)
-		if err != nil {
-			fmt.Fprintln(os.Stderr, "harness error:", err)
-			os.Exit(3)
-		}
-		for _, ck := range checks {
-			status := "pass"
-			if ck.Got != ck.Exp {
-				status = "FAIL"
-			}
-			e, g := ck.Exp, ck.Got
-			if len(e) > 300 {
-				e = e[:300] + "..."
-			}
-			if len(g) > 300 {
-				g = g[:300] + "..."
-			}
-			fmt.Printf("%s [%s] %s\n   expected: %s\n   got:      %s\n", status, ck.Tag, ck.What, e, g)
-		}
-		if !ok {
-			os.Exit(1)
-		}
-	default:
-		fmt.Fprintln(os.Stderr, "unknown command")
-		os.Exit(2)
-	}
-}
+func main() { core.Main() }
